@@ -64,6 +64,16 @@ def _lindblad_ops():
             math.sqrt(0.2) * torch.tensor([[1.0, 0.5], [0.0, 1.0]], dtype=torch.complex128)]
 
 
+# `MPSConfig.dt` is a knob of its own (the grid comes from target_times): every run draws it from CFG_DTS. The property's
+# "1 ns root tolerance" does not depend on it: the model's tolerance is the constant 1 and so is the oracle's.
+CFG_DTS = [1.0, 5.0, 10.0, 20.0, 37.0, 100.0]
+CFG_DT = [10.0]
+
+
+def set_cfg_dt(v):
+    CFG_DT[0] = float(v)
+
+
 def make_noisy_impl(n, times, observables=None, omega=0.0, ops=None, ev_times=(0.0, 1.0)):
     import torch
     import emu_mps.mps_backend_impl as mbi
@@ -76,7 +86,7 @@ def make_noisy_impl(n, times, observables=None, omega=0.0, ops=None, ev_times=(0
     data = compat.make_sequence_data(torch.full((nsteps, n), float(omega)), z, z, U, times,
                                      lindblad_ops=ops or _lindblad_ops())
     obs = observables if observables is not None else [Occupation(evaluation_times=list(ev_times))]
-    cfg = compat.mps_config(observables=obs, optimize_qubit_ordering=False)
+    cfg = compat.mps_config(observables=obs, optimize_qubit_ordering=False, dt=CFG_DT[0])
     return mbi.NoisyMPSBackendImpl(cfg, data)
 
 
@@ -148,7 +158,7 @@ def gen_times(rng):
     mode = rng.choice(["uniform", "uniform", "short", "ragged", "late"])
     ns = rng.randint(1, 4)
     if mode == "uniform":
-        dt = rng.choice([10.0, 1.0, 2.0, 5.0, 37.0, 100.0, 0.5])
+        dt = rng.choice([10.0, 1.0, 2.0, 5.0, 20.0, 37.0, 100.0, 250.0, 1000.0, 0.5])
         return [i * dt for i in range(ns + 1)]
     if mode == "short":          # steps shorter than the 1 ns tolerance: searches converge at once
         dt = rng.choice([0.25, 0.5, 0.75])
@@ -158,7 +168,7 @@ def gen_times(rng):
         return [0.0] + [100.0 + i * dt for i in range(ns)]
     t, out = 0.0, [0.0]
     for _ in range(ns):
-        t += rng.choice([0.5, 1.0, 3.0, 7.5, 10.0, 64.0, rng.uniform(0.1, 30.0)])
+        t += rng.choice([0.5, 1.0, 3.0, 7.5, 10.0, 64.0, 300.0, 1000.0, rng.uniform(0.1, 30.0)])
         out.append(t)
     return out
 
@@ -345,14 +355,16 @@ def gen_nsc(rng):
         rf = dict(a=a, b=b, fa=fa, fb=fb, c=c, d=d, fc=fc, bisection=rng.random() < 0.5)
     env = (rng.choice([math.sqrt(x) for x in LAT] + [rng.uniform(0, 1.1)]), rng.choice(LAT + [rng.random()]),
            rng.choice(POST), rng.randrange(8))
-    return dict(n=n, times=times, step=step, cur=cur, tgt=tgt, thr=thr, gap=gap, rf=rf, env=env)
+    return dict(n=n, times=times, step=step, cur=cur, tgt=tgt, thr=thr, gap=gap, rf=rf, env=env, cfg_dt=rng.choice(CFG_DTS))
 
 
 def impl_nsc(case):
     from emu_base.math.brents_root_finding import BrentsRootFinder
     tr = Tracer(env_tape=[(1.0, 0.5, 1.0, 0), case["env"]], stub_evolve=True)
     with traced(tr):
+        set_cfg_dt(case.get("cfg_dt", 10.0))
         impl = make_noisy_impl(case["n"], case["times"], ev_times=(1.0,))
+        set_cfg_dt(10.0)
         impl.init()
         impl.current_time, impl.target_time, impl._timestep_index = case["cur"], case["tgt"], case["step"]
         impl.jump_threshold, impl.norm_gap_before_jump = case["thr"], case["gap"]
@@ -437,7 +449,7 @@ def physics_run(seed, n, times, omega, gamma):
 
 # ------------------------------------------------------------------ check
 def _ser(n, times, tape):
-    return {"n": n, "times": times, "tape": [list(t) for t in tape]}
+    return {"n": n, "times": times, "tape": [list(t) for t in tape], "cfg_dt": CFG_DT[0]}
 
 
 def tape_cases(rep, rng, count, drv_lines, pending, sizes=(2, 3)):
@@ -445,22 +457,28 @@ def tape_cases(rep, rng, count, drv_lines, pending, sizes=(2, 3)):
         n = rng.choice(sizes)
         times = gen_times(rng)
         mode, tape = gen_tape(rng, rng.randint(2, 40))
+        set_cfg_dt(rng.choice(CFG_DTS))
         one_tape(rep, n, times, tape, drv_lines, pending, mode)
+    set_cfg_dt(10.0)
 
 
 def gen_fn(rng):
-    dt = rng.choice([10.0, 10.0, 20.0, 5.0, 37.0])
+    dt = rng.choice([10.0, 10.0, 20.0, 5.0, 37.0, 100.0, 1.0, 300.0, 1000.0])
     ns = rng.randint(2, 6)
     times = [k * dt for k in range(ns + 1)]
-    gamma = rng.choice([0.01, 0.02, 0.05, 0.1, rng.uniform(0.005, 0.2)])
+    gamma = rng.choice([0.1, 0.5, 1.0, 2.0, rng.uniform(0.05, 2.0)]) / dt      # a crossing every few steps
     us = [rng.uniform(0.15, 0.9) for _ in range(rng.randint(1, 4))]
-    return dict(fn=True, n=rng.choice([2, 3]), times=times, gamma=gamma, us=us)
+    # config.dt: mostly the grid step (how the back-end is really used), otherwise independent of it
+    cfg_dt = dt if (dt in CFG_DTS and rng.random() < 0.6) else rng.choice(CFG_DTS)
+    return dict(fn=True, n=rng.choice([2, 3]), times=times, gamma=gamma, us=us, cfg_dt=cfg_dt)
 
 
 def one_fn_tape(rep, d, drv_lines, pending):
     """a tape that is a function of time (so that norm - threshold and norm^2 - threshold have different zeros)"""
     ft = FnTracer(d["gamma"], d["us"])
+    set_cfg_dt(d.get("cfg_dt", 10.0))
     status, recs, tr = run_real_tape_observed(d["n"], d["times"], None, tracer=ft)
+    set_cfg_dt(10.0)
     tape = list(ft.used)
     msg = oracle(d["times"], recs if not status.startswith("err") else tr.recs, tr, status)
     if msg:
@@ -489,10 +507,11 @@ def one_tape(rep, n, times, tape, drv_lines, pending, mode):
     rep.hist("status", status)
     rep.hist("jumps_per_run", min(len(tr.jump_info), 10))
     rep.hist("sites", n)
+    rep.hist("config_dt", CFG_DT[0])
 
 
 def check(rep: Report, tier: str, seed: int) -> None:
-    rep.rule = ("case = (sites 2-4, grid, environment tape [(norm, uniform draw, post-jump norm, jump choice)]) from one "
+    rep.rule = ("case = (sites 2-4, grid with steps 0.25-1000 ns, MPSConfig.dt in {1,5,10,20,37,100} drawn independently, environment tape [(norm, uniform draw, post-jump norm, jump choice)]) from one "
                 "PRNG; tape modes: 1/8-lattice (exact ties, gap==0), random, decaying norm, collapsing norm (Zeno), "
                 "gap-zero histories, norm^2 = exp(-gamma (t - t_last_jump)) as a function of time; grids: uniform, sub-ns steps, ragged, first step long; plus exhaustive "
                 "above/below-threshold crossing patterns (length <= 8 quick, <= 12 thorough); plus single sweep_complete "
@@ -505,6 +524,7 @@ def check(rep: Report, tier: str, seed: int) -> None:
         "environment contract: random.uniform draws in [0,1]; post-jump norm passes the code's own isclose assert",
         "binary64 rounding is outside the theorems (same definitions over an ordered field); the correspondence is bit-exact",
         "local kernels (_evolve etc.) abstracted to events: C18 is about the stepping logic only",
+        "the property's '1 ns root tolerance' is a constant: the model's tolerance and the oracle's clauses use 1 ns whatever MPSConfig.dt is",
     ]
     compat.install()
     lean_stage(rep, PROP_MODULE, AUDIT, thorough=(tier == "thorough"))
@@ -535,6 +555,7 @@ def check(rep: Report, tier: str, seed: int) -> None:
             if quick and ln > 6:
                 words = [tuple(rng.choice((0.9, 0.3)) for _ in range(ln)) for _ in range(40)]
             for wd in words:
+                set_cfg_dt(rng.choice(CFG_DTS))
                 tape = [(1.0, 0.5, 1.0, 0)] + [(x, 0.5, 1.0, 0) for x in wd]
                 one_tape(rep, 2, grid, tape, lines, pending, "exhaustive")
 
@@ -576,10 +597,12 @@ def check(rep: Report, tier: str, seed: int) -> None:
     nphys = 6 if quick else 60
     for i in range(nphys):
         n = rng.choice([2, 3]) if quick else rng.choice([2, 3, 4])
-        dt = rng.choice([10.0, 20.0, 7.0])
+        dt = rng.choice([10.0, 20.0, 7.0, 37.0, 100.0, 5.0])
+        set_cfg_dt(dt if dt in CFG_DTS else rng.choice(CFG_DTS))   # physics runs: config.dt = the grid step where admissible
+        rep.hist("physics_config_dt", CFG_DT[0])
         ns = rng.randint(3, 8)
         times = [k * dt for k in range(ns + 1)]
-        gamma = rng.choice([5.0, 20.0, 60.0])
+        gamma = rng.choice([5.0, 20.0, 60.0]) * min(1.0, 20.0 / dt)
         sd = rng.randrange(10 ** 6)
         omega = rng.choice([0.0, 6.0, 12.0])
         status, recs, tr, omsg = physics_run(sd, n, times, omega=omega, gamma=gamma)
@@ -588,7 +611,8 @@ def check(rep: Report, tier: str, seed: int) -> None:
         rep.hist("physics_jumps", min(len(tr.jump_info), 10))
         msg = oracle(times, recs, tr, status, tape_driven=False) or ((omsg, None) if omsg else None)
         if msg:
-            rep.fail("physics run: " + msg[0], {"physics": True, "seed": sd, "n": n, "times": times, "gamma": gamma, "omega": omega}, klass=msg[1])
+            rep.fail("physics run: " + msg[0], {"physics": True, "seed": sd, "n": n, "times": times, "gamma": gamma, "omega": omega, "cfg_dt": CFG_DT[0]}, klass=msg[1])
+    set_cfg_dt(10.0)
 
     if rep.broken and not rep.failing:
         search(rep, seed, 3000 if quick else 40000)
@@ -600,7 +624,9 @@ def search(rep: Report, seed: int, n: int) -> None:
     rng = seeded(seed * 104729 + 18)
     for _ in range(n // 4):
         d = gen_fn(rng)
+        set_cfg_dt(d.get("cfg_dt", 10.0))
         status, recs, tr = run_real_tape_observed(d["n"], d["times"], None, tracer=FnTracer(d["gamma"], d["us"]))
+        set_cfg_dt(10.0)
         msg = oracle(d["times"], recs if not status.startswith("err") else tr.recs, tr, status)
         if msg and msg[1] != KNOWN_CLASS:
             rep.fail(msg[0], d, klass=msg[1])
@@ -623,6 +649,7 @@ def replay(rep: Report, path: str) -> int:
     bad = 0
     for f in data.get("failing_inputs", []):
         d = f["data"]
+        set_cfg_dt(d.get("cfg_dt", 10.0))
         if d.get("physics"):
             status, recs, tr, omsg = physics_run(d["seed"], d["n"], d["times"], omega=d.get("omega", 6.0), gamma=d["gamma"])
             msg = oracle(d["times"], recs, tr, status, tape_driven=False) or ((omsg, None) if omsg else None)
